@@ -3,7 +3,7 @@
        tensorly.tenalg.proximal.validate_constraints called for every `order`, compared EXACTLY;
    (b) trace cases: the loop skeleton of constrained_parafac executed on provenance tags against the
        provenance of the factors really returned (which recorded operator call produced them). *)
-From Coq Require Import List Arith ZArith QArith Bool.
+From Coq Require Import List Arith ZArith QArith Qabs Bool.
 From TLV Require Import Base.PyList Base.Tensor Corr.Common.
 From TLV Require Import Model.Constraints.
 Import ListNotations.
@@ -87,12 +87,55 @@ Definition model_admm (n : nat) (specs : list (@zspec pv)) (order n_iter : nat) 
 Definition model_prox (n : nat) (specs : list (@zspec pv)) (order : nat) : res prov :=
   if Nat.eqb (length specs) 12 then proximal_operator tag_op (zvalidate pv_truthy n (with_names specs)) order PvRaw else Err.
 
+(* (e) feasibility of a returned / dispatched factor, decided in Coq on the exact rational value of the float64 entries
+   (rows, row-major).  Transcription of the Python predicates of harness/props/C11.py with a LOOSER tolerance (1e-8 instead
+   of 1e-9): every array the Python predicate accepted must be accepted here. *)
+Definition qmax (a b : Q) : Q := if Qle_bool a b then b else a.
+Definition tolq : Q := 1 # 100000000.
+Definition qsum (l : list Q) : Q := fold_right (fun a s => Qred (a + s)) 0 l.
+Definition qmaxabs (l : list Q) : Q := fold_right (fun a m => qmax (Qabs a) m) 0 l.
+Definition qsumsq (l : list Q) : Q := qsum (map (fun a => Qred (a * a)) l).
+Definition qcols (rows : list (list Q)) : list (list Q) :=
+  match rows with [] => [] | r :: _ => map (fun j => map (fun row => nth j row 0) rows) (seq 0 (length r)) end.
+Fixpoint nondecb (l : list Q) : bool :=
+  match l with a :: (b :: _) as r => Qle_bool (a - tolq) b && nondecb r | _ => true end.
+Fixpoint nonincb (l : list Q) : bool :=
+  match l with a :: (b :: _) as r => Qle_bool b (a + tolq) && nonincb r | _ => true end.
+Definition unimodalb (c : list Q) : bool :=
+  existsb (fun i => nondecb (firstn (S i) c) && nonincb (skipn i c)) (seq 0 (length c)).
+Definition qnnz (l : list Q) : nat := length (filter (fun a => negb (Qeq_bool a 0)) l).
+Definition pv_q (p : pv) : Q := match p with PBool b => if b then 1 else 0 | PInt z => inject_Z z | PFloat q => q end.
+Definition near1 (tol x : Q) : bool := Qle_bool (Qabs (x - 1)) tol.
+Definition is_zero_col (c : list Q) : bool := forallb (fun a => Qeq_bool a 0) c.
+
+Definition feasb (k : kind) (p : pv) (rows : list (list Q)) : bool :=
+  let P := pv_q p in
+  let nrows := inject_Z (Z.of_nat (length rows)) in
+  let slack := Qred (tolq * qmax 1 (Qabs P) * nrows) in
+  let cs := qcols rows in
+  match k with
+  | KNonNeg => forallb (fun a => Qle_bool (- tolq) a) (concat rows)
+  | KSimplex => forallb (fun a => Qle_bool (- tolq) a) (concat rows) &&
+                forallb (fun c => Qle_bool (Qabs (qsum c - P)) slack) cs
+  | KMonotone => forallb nondecb cs
+  | KUnimodal => forallb unimodalb cs
+  | KHardSparsity => forallb (fun c => Qle_bool (inject_Z (Z.of_nat (qnnz c))) P) cs
+  | KNormSparsity => forallb (fun c => Qle_bool (inject_Z (Z.of_nat (qnnz c))) P) cs &&
+                     (near1 (3 * tolq) (qsumsq (concat rows)) ||
+                      forallb (fun c => is_zero_col c || near1 (3 * tolq) (qsumsq c)) cs)
+  | KNormalize => near1 tolq (qmaxabs (concat rows)) ||
+                  (negb (is_zero_col (concat rows)) && forallb (fun c => is_zero_col c || near1 tolq (qmaxabs c)) cs)
+  | KSoftSparsity => forallb (fun c => Qle_bool (qsum (map Qabs c)) (P + slack)) cs
+  | _ => true
+  end.
+
 Inductive case :=
 | CTable (id n : nat) (specs : list (@zspec pv)) (expected : res (list (option (kind * pv))))
 | CTrace (id n : nat) (specs : list (@zspec pv)) (user_init : bool) (fixed : list nat) (n_outer n_inner : nat)
          (expected : res (list prov))
 | CAdmm (id n : nat) (specs : list (@zspec pv)) (order n_iter : nat) (expected : res prov)
-| CProx (id n : nat) (specs : list (@zspec pv)) (order : nat) (expected : res prov).
+| CProx (id n : nat) (specs : list (@zspec pv)) (order : nat) (expected : res prov)
+| CFeas (id : nat) (k : kind) (p : pv) (rows : list (list Q)).
 
 Definition agree (c : case) : bool :=
   match c with
@@ -100,7 +143,8 @@ Definition agree (c : case) : bool :=
   | CTrace _ n specs ui fixed no ni expected => res_eqb (list_eqb prov_eqb) (model_trace n specs ui fixed no ni) expected
   | CAdmm _ n specs order ni expected => res_eqb prov_eqb (model_admm n specs order ni) expected
   | CProx _ n specs order expected => res_eqb prov_eqb (model_prox n specs order) expected
+  | CFeas _ k p rows => feasb k p rows
   end.
 Definition ident (c : case) : nat :=
-  match c with CTable i _ _ _ => i | CTrace i _ _ _ _ _ _ _ => i | CAdmm i _ _ _ _ _ => i | CProx i _ _ _ _ => i end.
+  match c with CTable i _ _ _ => i | CTrace i _ _ _ _ _ _ _ => i | CAdmm i _ _ _ _ _ => i | CProx i _ _ _ _ => i | CFeas i _ _ _ => i end.
 Definition failing := failing_ids agree ident.
